@@ -62,6 +62,8 @@ func modFamily(th bool) []*pg.Program {
 	feat("time-alias", func(p *pg.Program) { p.F.TimeImp = "alias" })
 	feat("time-other", func(p *pg.Program) { p.F.TimeImp = "other" })
 	feat("debug-other", func(p *pg.Program) { p.F.DebugImp = "other" })
+	feat("debug-dirname", func(p *pg.Program) { p.F.DebugImp = "dirname" })
+	feat("time-dirname", func(p *pg.Program) { p.F.TimeImp = "dirname" })
 	feat("cff-alias", func(p *pg.Program) { p.F.CffAlias = "c" })
 	feat("surround", func(p *pg.Program) { p.F.Surround = true })
 	// hand-written inputs (compiled in both modes, not executed)
